@@ -93,14 +93,19 @@ def _start_position_insert(o, k):
         s, inc = o["r"], o["re"] == "INC"
     else:
         s, inc = ([] if o["le"] == "INF" else o["l"]), o["le"] in ("INC", "INF")
-    if not inc and s != k:
-        return False
     d = 0
     while d <= len(s) and d <= len(k):
         if s[:d] != k[:d]:
             return False
-        if _tuple_at(s, d) == _tuple_at(k, d):
+        ts, tk = _tuple_at(s, d), _tuple_at(k, d)
+        if ts != tk:
+            return False
+        if ts[1] == 9 and len(s) > d + 8:
+            # a link tuple on the way to the start key: the cursor is positioned AT it whatever the kind of the start endpoint
+            # (this layer is not the last one of the start key), findnext skips an entry with that tuple
             return True
+        if ts[1] != 9:
+            return inc          # the start key's own tuple: the inclusive start key itself
         d += 8
     return False
 
